@@ -1,6 +1,6 @@
 (** C14: the run-time panic sites of the admission / governance-execution code that the model
     accounts for, in the vocabulary of the generated inventory Gen/PanicSites.v:
-    (function, kind, expression text, number of occurrences; kinds: assert, index, slice, panic, indexwrite, div, make), plus how each is accounted for:
+    (function, kind, expression text, number of occurrences; kinds: assert, index, slice, panic, indexwrite, div, make, nilptr), plus how each is accounted for:
       "model"     explicit [Panic] outcome in Model.v, proved unreachable in Theorems.v
       "map"       Go map index (cannot panic)
       "reviewed"  argued by hand (reason in the comment), outside the theorems
@@ -11,6 +11,11 @@ Import ListNotations.
 Open Scope string_scope.
 
 Definition model_sites : list (string * string * string * nat * string) := [
+  ("chain.adjustRv", "slice", "ret[:maxRetSize-4]", 1, "reviewed");  (* guarded by len(ret) > maxRetSize *)
+  ("chain.executeTx", "nilptr", "bs.BpReward.Add(&bs.BpReward, txFee)", 1, "model");  (* explicit Panic outcome of exec_gov for a type without a case in the dispatch; unreachable by tx_validate_type; the case lists are generated (C14_dispatch_complete) *)
+  ("chain.executeTx", "nilptr", "txFee.Bytes()", 1, "model");  (* after the previous site: same condition *)
+  ("types.IsQuirkTx", "index", "quirkTxMap[id]", 1, "map");  (* Go map index *)
+  ("types.NewReceipt", "slice", "contractAddress[:33]", 1, "reviewed");  (* AccountState.ID() pads every id to 33 bytes *)
   ("enterprise.CcArgument.get", "index", "cc[key]", 1, "map");  (* Go map index: yields the zero value, cannot panic *)
   ("enterprise.Conf.RemoveValue", "slice", "c.Values[:i]", 1, "reviewed");  (* i ranges over c.Values *)
   ("enterprise.Conf.RemoveValue", "slice", "c.Values[i+1:]", 1, "reviewed");  (* i ranges over c.Values *)
@@ -129,6 +134,14 @@ Definition site_known (x : string * string * string * nat) : bool :=
 
 (** the generated sites that the model does not account for (empty = obligation holds) *)
 Definition unknown_sites (gen : list (string * string * string * nat)) := filter (fun x => negb (site_known x)) gen.
+
+(** every transaction type Tx.Validate admits has a case in executeTx's dispatch, and the model's
+    lists are the generated ones *)
+Definition list_incl (a b : list string) : bool := forallb (fun x => existsb (String.eqb x) b) a.
+Definition dispatch_complete (gen_validate gen_exec model_validate model_exec : list string) : bool :=
+  list_incl gen_validate gen_exec
+  && list_incl gen_validate model_validate && list_incl model_validate gen_validate
+  && list_incl gen_exec model_exec && list_incl model_exec gen_exec.
 
 Definition sites_covered (gen : list (string * string * string * nat)) : bool :=
   match unknown_sites gen with [] => true | _ => false end.
